@@ -108,13 +108,13 @@ def refresh_consistency(model: Model, G: RuleResult):
     context managers, the refresh `__update_params()` is called, and `yparam` / the function arguments are read from what that
     refresh produced - in both products.  A refresh that is adapted in one product only leaves the other on the construction-time
     tensors (values right, graph connected to the wrong tensors)."""
-    mv, rmv = model.func(JAC, "_Jac._mv"), model.func(JAC, "_Jac._rmv")
-    up = model.func(JAC, "_Jac.__update_params")
-    writes = any(isinstance(s_, ast.Assign) and any(ast.unparse(t) == "self.params" for t in s_.targets) for s_ in own_nodes(up.node))
-    returns = any(isinstance(r, ast.Return) and r.value is not None for r in own_nodes(up.node))
+    # the products with their private helpers inlined (Model.flat_func): the refresh statement is seen wherever the developer put it
+    mv, rmv = model.flat_func(JAC, "_Jac._mv"), model.flat_func(JAC, "_Jac._rmv")
 
     def refresh_sig(fi):
-        """(with items, how the refreshed list is obtained, source of yparam, arguments of fcn) in the parameters-changed branch"""
+        """(with items, the expression the refreshed argument list is rebuilt from, source of yparam, arguments of fcn) in the
+        parameters-changed branch"""
+        me = fi.params()[0]
         for w in ast.walk(fi.node):
             if isinstance(w, ast.With) and any("useobjparams" in ast.unparse(i.context_expr) for i in w.items):
                 items = sorted(ast.unparse(i.context_expr) for i in w.items)
@@ -122,11 +122,13 @@ def refresh_consistency(model: Model, G: RuleResult):
                 ypar = None
                 fargs = None
                 fout = None
+                stored = {}
                 for s_ in w.body:
-                    src = ast.unparse(s_)
-                    if "__update_params()" in src:
-                        upd = "stored" if isinstance(s_, ast.Expr) else ("returned:" + ast.unparse(s_.targets[0]) if isinstance(s_, ast.Assign) else src)
-                    if isinstance(s_, ast.Assign) and isinstance(s_.value, ast.Call) and ast.unparse(s_.value.func) == "self.fcn":
+                    if isinstance(s_, ast.Assign) and len(s_.targets) == 1 and isinstance(s_.value, ast.Call) and isinstance(s_.value.func, ast.Attribute) \
+                            and s_.value.func.attr == "reconstruct_params":
+                        upd = "%s = %s" % (ast.unparse(s_.targets[0]), ast.unparse(s_.value))
+                        stored[ast.unparse(s_.targets[0])] = s_.value
+                    if isinstance(s_, ast.Assign) and isinstance(s_.value, ast.Call) and ast.unparse(s_.value.func) == "%s.fcn" % me:
                         fargs = [ast.unparse(a) for a in s_.value.args]
                         fout = ast.unparse(s_.targets[0])
                 # the differentiated input: whatever name the pull-back of the function output is taken w.r.t.
@@ -138,24 +140,25 @@ def refresh_consistency(model: Model, G: RuleResult):
                 for s_ in w.body:
                     if isinstance(s_, ast.Assign) and isinstance(s_.targets[0], ast.Name) and s_.targets[0].id in ynames:
                         ypar = ast.unparse(s_.value)
-                return (tuple(items), upd, ypar, tuple(fargs or []))
-        return None
-    a, b = refresh_sig(mv), refresh_sig(rmv)
+                return (tuple(items), upd, ypar, tuple(fargs or [])), stored
+        return None, {}
+    (a, sa), (b, sb) = refresh_sig(mv), refresh_sig(rmv)
     if a is None or b is None:
-        G.bad(mv if a is None else rmv, (mv if a is None else rmv).node, "the parameters-changed branch (re-evaluation under useobjparams) was not found")
+        G.undecided(mv if a is None else rmv, (mv if a is None else rmv).node, "cannot find the parameters-changed branch (re-evaluation under useobjparams) of %s"
+                    % ("_mv" if a is None else "_rmv"))
         return
     if a == b:
         G.ok(rmv.fq, "_mv and _rmv refresh identically: %s, yparam = %s, fcn(%s)" % (a[1], a[2], ", ".join(a[3])))
     else:
         G.bad(rmv, rmv.node, "_mv and _rmv re-evaluate the function differently after a parameter substitution (_mv: %s / _rmv: %s): one of the products stays on the "
               "construction-time tensors" % (a[1:], b[1:]))
-    # the way the refreshed list is consumed matches what __update_params does with it
-    mode = a[1] or ""
-    consistent = (mode == "stored" and writes and "self.params" in (a[2] or "")) or (mode.startswith("returned:") and returns and mode.split(":")[1] in (a[2] or ""))
+    # the refreshed list is what the products read: yparam and the arguments of fcn come from the target of the refresh
+    tgt = (a[1] or "").split(" = ")[0]
+    consistent = bool(tgt) and (a[2] or "").startswith(tgt + "[") and all(x in ("*" + tgt, tgt) or x.startswith(tgt + "[") for x in a[3])
     if consistent and a == b:
-        G.ok(up.fq, "__update_params %s the re-assembled list and both products read it from there" % ("stores" if mode == "stored" else "returns"))
+        G.ok(rmv.fq, "the refresh stores the re-assembled list in `%s` and both products read yparam and the arguments from there" % tgt)
     else:
-        G.bad(up, up.node, "__update_params %s the re-assembled parameter list but a product reads it from %s" % ("stores" if writes else "returns", (b[2] if a == b else "%s / %s" % (a[2], b[2]))))
+        G.bad(rmv, rmv.node, "the re-assembled parameter list is `%s` but a product reads yparam / the arguments from %s" % (a[1], (b[2] if a == b else "%s / %s" % (a[2], b[2]))))
 
 
 def _construction_order(model: Model, V: RuleResult):
@@ -269,7 +272,7 @@ def _shape(model: Model, S: RuleResult):
     else:
         S.bad(init, enclosing_stmt(shp), "the Jacobian operator must have shape (numel(output), numel(input))", what=what)
     for q, inn, outn, gshape in (("_Jac._mv", "nin", "nout", "inshape"), ("_Jac._rmv", "nout", "nin", "outshape")):
-        f = model.func(JAC, q)
+        f = model.flat_func(JAC, q)
         arg = f.params()[1]
         # every reshape that mentions one of the operator's size attributes, classified by what is reshaped
         seen_roles = {}
@@ -303,7 +306,7 @@ def _shape(model: Model, S: RuleResult):
         else:
             S.undecided(f, f.node, "cannot find the three reshapes (input, cotangent, result) of %s (found %s)" % (q, sorted(seen_roles)))
     # yparam / v roles in _mv: differentiate dfdy w.r.t. v with grad_outputs from gy (double-backward trick)
-    mv = model.func(JAC, "_Jac._mv")
+    mv = model.flat_func(JAC, "_Jac._mv")
     grads = [c for c in own_nodes(mv.node) if ac.is_autograd_grad(c)]
     mdefs = function_defs(mv.node)
 
@@ -331,7 +334,7 @@ def _shape(model: Model, S: RuleResult):
         S.ok(mv.fq, "forward product differentiates the vector-Jacobian product w.r.t. the dummy cotangent v")
     else:
         S.bad(mv, mv.node, "forward product is not d(dfdy)/dv (double-backward trick)")
-    rmv = model.func(JAC, "_Jac._rmv")
+    rmv = model.flat_func(JAC, "_Jac._rmv")
     grads = [c for c in own_nodes(rmv.node) if ac.is_autograd_grad(c)]
     rdefs = function_defs(rmv.node)
     if any(len(c.args) >= 2 and is_fcn_output(c.args[0], rdefs) and single(c.args[1]) is not None and is_selected_arg(single(c.args[1]), rdefs) for c in grads):
@@ -363,9 +366,49 @@ def _hess(model: Model, H: RuleResult):
         H.bad(f, f.node, "hess differentiates the gradient w.r.t. a different argument than the gradient was taken for")
 
 
+def _key_lists(e) -> dict:
+    """{attribute self.<X>: key expression} for every comprehension over self.<X> inside expression e (`[id(p) for p in self.X]`)"""
+    out = {}
+    for c in ast.walk(e):
+        if isinstance(c, (ast.ListComp, ast.GeneratorExp)) and len(c.generators) == 1:
+            it = c.generators[0].iter
+            if isinstance(it, ast.Attribute) and isinstance(it.value, ast.Name):
+                var = ast.unparse(c.generators[0].target)
+                out[it.attr] = ast.unparse(c.elt).replace(var, "<elt>")
+    return out
+
+
+def _id_lists(e) -> set:
+    """attributes self.<X> iterated by an `id(..)` comprehension inside expression e"""
+    return {a_ for a_, k_ in _key_lists(e).items() if k_ == "id(<elt>)"}
+
+
+def _cache_ifs(f):
+    """the `if` statements of a product that choose between the cached graph and a re-evaluation of the function: exactly one arm
+    (guard clauses included) contains the call self.fcn(..)"""
+    me = f.params()[0]
+
+    def evals(stmts):
+        return any(isinstance(c, ast.Call) and ast.unparse(c.func) == "%s.fcn" % me for st in stmts for c in ast.walk(st))
+    out = []
+    for i in own_nodes(f.node):
+        if isinstance(i, ast.If):
+            par = getattr(i, "_parent", None)
+            rest = []
+            for fld in ("body", "orelse"):
+                blk = getattr(par, fld, None)
+                if isinstance(blk, list) and any(x is i for x in blk):
+                    rest = blk[[k for k, x in enumerate(blk) if x is i][0] + 1:]
+            a_, b_ = evals(i.body), evals(i.orelse) or (not i.orelse and evals(rest))
+            if a_ != b_:
+                out.append(i)
+    return out
+
+
 def _cache_key(model: Model, K: RuleResult):
+    """every name _getparamnames lists is covered by the identity test that guards the cached graph, and the identities compared are
+    the ones remembered at construction - read from the products and the constructor with their private helpers inlined"""
     gp = model.func(JAC, "_Jac._getparamnames")
-    un = model.func(JAC, "_Jac.__param_tensors_unchanged")
     names = set()
     for c in ast.walk(gp.node):
         if isinstance(c, ast.Constant) and isinstance(c.value, str):
@@ -374,33 +417,42 @@ def _cache_key(model: Model, K: RuleResult):
                 names.add(nm)
     if not names:
         raise AnalysisError("_getparamnames lists no names")
+    mv = model.flat_func(JAC, "_Jac._mv")
+    init = model.flat_func(JAC, "_Jac.__init__")
+    tests = [i.test for i in _cache_ifs(mv)]
+    if not tests:
+        K.undecided(mv, mv.node, "cannot find the test that chooses between the cached graph and a re-evaluation in _Jac._mv")
+        return
     checked = set()
-    for c in ast.walk(un.node):
-        if isinstance(c, ast.ListComp) and isinstance(c.elt, ast.Call) and ast.unparse(c.elt.func) == "id":
-            it = c.generators[0].iter
-            if isinstance(it, ast.Attribute) and isinstance(it.value, ast.Name) and it.value.id == "self":
-                checked.add(it.attr)
-    init = model.func(JAC, "_Jac.__init__")
+    for t in tests:
+        checked |= _id_lists(t)
+        for a_, k_ in _key_lists(t).items():
+            if k_ != "id(<elt>)":
+                K.bad(mv, mv.node, "the cached graph is guarded by `%s` of the tensors in self.%s, not by their identity id(): a tensor replaced by another one that "
+                      "shares storage / value keeps the stale graph, and a view of the same tensor invalidates it needlessly" % (k_.replace("<elt>", "p"), a_))
     idefs = {}
     for s in own_nodes(init.node):
-        if isinstance(s, ast.Assign) and isinstance(s.targets[0], ast.Attribute) and isinstance(s.targets[0].value, ast.Name) and s.targets[0].value.id == "self":
+        if isinstance(s, ast.Assign) and isinstance(s.targets[0], ast.Attribute) and isinstance(s.targets[0].value, ast.Name) and s.targets[0].value.id == init.params()[0]:
             idefs[s.targets[0].attr] = s.value
     for nm in sorted(names):
         what = "parameter name `%s`" % nm
         if nm in checked:
-            K.ok(un.fq, what + " is identity-checked by the cache-validity test")
+            K.ok(mv.fq, what + " is identity-checked by the cache-validity test")
         elif "params_tensor" in checked and _is_element_of_params(init, idefs.get(nm)) and \
                 "TensorNonTensorSeparator(params)" in ast.unparse(idefs.get("param_sep", ast.Constant(value=None))) and \
                 "param_sep.get_tensor_params()" in ast.unparse(idefs.get("params_tensor", ast.Constant(value=None))):
-            K.ok(un.fq, what + " is an element of the explicit parameters, whose differentiable members are identity-checked "
+            K.ok(mv.fq, what + " is an element of the explicit parameters, whose differentiable members are identity-checked "
                  "(it is validated to require grad, so it is one of them)")
         else:
-            K.bad(un, un.node, "`%s` is listed as a parameter of the operator but a change of it does not invalidate the cached graph" % nm, what=what)
-    # the remembered ids are taken from the same lists at construction
-    for lst, idattr in (("params_tensor", "id_params_tensor"), ("objparams", "id_objparams_tensor")):
-        v = idefs.get(idattr)
-        if isinstance(v, ast.ListComp) and ast.unparse(v.generators[0].iter) == "self.%s" % lst and "self.%s" % idattr in ast.unparse(un.node):
-            K.ok(init.fq, "ids of self.%s remembered at construction and compared later" % lst)
+            K.bad(mv, mv.node, "`%s` is listed as a parameter of the operator but a change of it does not invalidate the cached graph" % nm, what=what)
+    # the remembered ids are taken from the same lists at construction and are what the test compares with
+    remembered = {attr: _id_lists(v) for attr, v in idefs.items() if _id_lists(v)}
+    for lst in ("params_tensor", "objparams"):
+        attrs = [a_ for a_, ls in remembered.items() if lst in ls]
+        compared = any(isinstance(c, ast.Compare) and lst in _id_lists(c) and any("self.%s" % a_ in ast.unparse(c).replace(mv.params()[0] + ".", "self.") for a_ in attrs)
+                       for t in tests for c in ast.walk(t))
+        if attrs and compared:
+            K.ok(init.fq, "ids of self.%s remembered at construction (%s) and compared later" % (lst, attrs))
         else:
             K.bad(init, init.node, "ids of self.%s are not remembered/compared consistently" % lst)
 
@@ -418,30 +470,49 @@ def _is_element_of_params(init, v) -> bool:
 
 def _connect(model: Model, G: RuleResult):
     for q in ("_Jac._mv", "_Jac._rmv"):
-        f = model.func(JAC, q)
+        f = model.flat_func(JAC, q)
+        me = f.params()[0]
         cg = [c for c in own_nodes(f.node) if isinstance(c, ast.Call) and ast.unparse(c.func) == "connect_graph"]
         groups = {ast.unparse(c.args[1]) for c in cg if len(c.args) > 1}
-        if {"self.params_tensor", "self.objparams"} <= groups:
+        if {"%s.params_tensor" % me, "%s.objparams" % me} <= groups:
             G.ok(f.fq, "%s connects the result to explicit and object parameters" % q)
         else:
             G.bad(f, f.node, "%s must connect its result to both parameter groups (got %s)" % (q, sorted(groups)))
-        withs = [w for w in own_nodes(f.node) if isinstance(w, ast.With)]
-        ok = any(any("enable_grad" in ast.unparse(i.context_expr) for i in w.items) and
-                 any("useobjparams(self.objparams)" in ast.unparse(i.context_expr) for i in w.items) for w in withs)
-        if ok:
-            G.ok(f.fq, "%s re-evaluates the function under torch.enable_grad() and useobjparams(self.objparams)" % q)
-        else:
-            G.bad(f, f.node, "%s must re-evaluate under enable_grad and useobjparams(self.objparams)" % q)
+        # every re-evaluation of the function happens under torch.enable_grad() and useobjparams(self.objparams)
+        evals = [c for c in own_nodes(f.node) if isinstance(c, ast.Call) and ast.unparse(c.func) == "%s.fcn" % me]
+        if not evals:
+            G.undecided(f, f.node, "cannot find the re-evaluation of the function (self.fcn(..)) in %s" % q)
+        for c in evals:
+            items = [ast.unparse(i.context_expr) for w in ancestors(c) if isinstance(w, ast.With) for i in w.items]
+            if any("enable_grad" in t for t in items) and any("useobjparams(%s.objparams)" % me in t for t in items):
+                G.ok(f.fq, "%s re-evaluates the function under torch.enable_grad() and useobjparams(self.objparams)" % q)
+            else:
+                G.bad(f, enclosing_stmt(c), "%s must re-evaluate under enable_grad and useobjparams(self.objparams) (contexts here: %s)" % (q, items))
         # the cached values are used only when the cache is valid
-        ifs = [i for i in own_nodes(f.node) if isinstance(i, ast.If) and "__param_tensors_unchanged" in ast.unparse(i.test)]
-        if ifs and not ast.unparse(ifs[0].test).startswith("not "):
-            cached_branch = ast.unparse(ast.Module(body=ifs[0].body, type_ignores=[]))
-            if "self.fcn(" not in cached_branch:
+        ifs = _cache_ifs(f)
+        if ifs:
+            # the arm taken when the remembered keys EQUAL the current ones must be the one without the re-evaluation
+            t0 = ifs[0].test
+            neg = isinstance(t0, ast.UnaryOp) and isinstance(t0.op, ast.Not)
+            core = t0.operand if neg else t0
+            eqs = [c for c in ast.walk(core) if isinstance(c, ast.Compare) and _key_lists(c)]
+            all_eq = bool(eqs) and all(isinstance(c.ops[0], ast.Eq) for c in eqs)
+            all_ne = bool(eqs) and all(isinstance(c.ops[0], ast.NotEq) for c in eqs)
+            valid_arm = None
+            if all_eq:
+                valid_arm = ifs[0].orelse if neg else ifs[0].body
+            elif all_ne:
+                valid_arm = ifs[0].body if neg else ifs[0].orelse
+            if valid_arm is None:
+                G.undecided(f, ifs[0], "cannot interpret the cache-validity test `%s` of %s" % (ast.unparse(t0)[:80], q))
+                continue
+            cached_branch = ast.unparse(ast.Module(body=valid_arm, type_ignores=[])) if valid_arm else ""
+            if "%s.fcn(" % me not in cached_branch:
                 G.ok(f.fq, "%s uses the graph cached at construction only while the parameter identities are unchanged" % q)
             else:
                 G.bad(f, ifs[0], "cache branch re-evaluates / wrong polarity")
         else:
-            G.bad(f, f.node, "%s does not test the cache validity before using the cached graph" % q)
+            G.undecided(f, f.node, "cannot find the cache-validity test of %s" % q)
 
 
 def _connect_unconditional(model: Model, G: RuleResult):
@@ -460,28 +531,32 @@ def _connect_unconditional(model: Model, G: RuleResult):
         bad = (conditional + [r for r in rets if not uses(r)] + rets)[0] if rets else cg.node
         G.bad(cg, bad, "connect_graph must link the result to the parameters on every path: an exit that returns the result untouched leaves some parameters "
               "out of the graph (autograd then raises 'not used in the graph' / returns None instead of zeros)")
-    up = model.func(JAC, "_Jac.__update_params")
     gp = model.func(JAC, "_Jac._getparamnames")
     listed = set()
     for c in ast.walk(gp.node):
         if isinstance(c, ast.Constant) and isinstance(c.value, str) and c.value:
             listed.add(c.value.split("[")[0])
-    calls = [c for c in own_nodes(up.node) if isinstance(c, ast.Call) and isinstance(c.func, ast.Attribute) and c.func.attr == "reconstruct_params"]
-    ok = False
-    why = "no reconstruct_params call"
-    for c in calls:
-        a0 = c.args[0] if c.args else next((k.value for k in c.keywords if k.arg == "tensor_params"), None)
-        if a0 is None:
-            why = "reconstruct_params is called without the tensor list (it falls back to the separator's construction-time tensors)"
-        elif isinstance(a0, ast.Attribute) and isinstance(a0.value, ast.Name) and a0.value.id == "self" and a0.attr in listed:
-            ok = True
+    for q in ("_Jac._mv", "_Jac._rmv"):
+        up = model.flat_func(JAC, q)
+        me = up.params()[0]
+        calls = [c for c in own_nodes(up.node) if isinstance(c, ast.Call) and isinstance(c.func, ast.Attribute) and c.func.attr == "reconstruct_params"]
+        ok = False
+        why = "no reconstruct_params call"
+        for c in calls:
+            a0 = c.args[0] if c.args else next((k.value for k in c.keywords if k.arg == "tensor_params"), None)
+            if a0 is None:
+                why = "reconstruct_params is called without the tensor list (it falls back to the separator's construction-time tensors)"
+            elif isinstance(a0, ast.Attribute) and isinstance(a0.value, ast.Name) and a0.value.id == me and a0.attr in listed:
+                ok = True
+            else:
+                why = "the tensor list is `%s`, which is not one of the attributes named by _getparamnames (%s)" % (ast.unparse(a0), sorted(listed))
+        if ok:
+            G.ok(up.fq, "%s: the refresh rebuilds the argument list from an attribute that uselinopparams / setparams replace (%s)" % (q, sorted(listed)))
+        elif not calls:
+            G.undecided(up, up.node, "cannot find the refresh of the argument list (reconstruct_params) in %s" % q)
         else:
-            why = "the tensor list is `%s`, which is not one of the attributes named by _getparamnames (%s)" % (ast.unparse(a0), sorted(listed))
-    if ok:
-        G.ok(up.fq, "the refresh rebuilds the argument list from an attribute that uselinopparams / setparams replace (%s)" % sorted(listed))
-    else:
-        G.bad(up, up.node, "__update_params must rebuild the argument list from the substituted attribute: %s - after a parameter substitution the operator "
-              "would re-evaluate at the old tensors" % why)
+            G.bad(up, enclosing_stmt(calls[0]), "the refresh must rebuild the argument list from the substituted attribute: %s - after a parameter substitution the operator "
+                  "would re-evaluate at the old tensors" % why)
 
 
 def _index_space(model: Model, X: RuleResult):
